@@ -678,3 +678,15 @@ add("C02", "add-needed-import-skips-when-seen-anywhere", LT,
 add("C02", "benign-add-needed-import-keywords", LT,
     [("        AddImportsVisitor.add_needed_import(self.context, module, obj)", "        AddImportsVisitor.add_needed_import(self.context, module=module, obj=obj)")],
     "silent")
+add("C16", "memoised-base-name-by-text", "core_codemods/exception_without_raise.py",
+    [("        true_name = self.find_base_name(name)\n", "        memo = self.__dict__.setdefault(\"_names\", {})\n        text = getattr(name, \"value\", None)\n        if text not in memo:\n            self._names[text] = self.find_base_name(name)\n        true_name = self._names[text]\n")],
+    "fire", "R-RESOLUTION-NOT-MEMOISED", "ExceptionWithoutRaise")
+add("C12", "sonar-component-first-colon", "core_codemods/sonar/results.py",
+    [("json_location.get(\"component\").split(\":\")[-1]", "json_location.get(\"component\").partition(\":\")[2]")],
+    "fire", "R-SONAR-COMPONENT", "from_json_location")
+add("C12", "benign-sonar-component-rpartition", "core_codemods/sonar/results.py",
+    [("        file = Path(json_location.get(\"component\").split(\":\")[-1])", "        component = json_location.get(\"component\")\n        file = Path(component.rpartition(\":\")[2])")],
+    "silent")
+add("C07", "scan-decides-on-first-element", "core_codemods/flask_json_response_type.py",
+    [("                        # it may use variable or other expreesions that resolves to Content-Type\n                        case _:\n                            return True\n", "                        # it may use variable or other expreesions that resolves to Content-Type\n                        case _:\n                            return True\n                    return False\n                case _:\n                    return False\n")],
+    "fire", "R-SCAN-ALL-ELEMENTS", "_has_content_type_key")
